@@ -313,7 +313,11 @@ class _WriteData(_Storage):
         v0 = self.v(c)
         g, k, idx = z3.Const("g!wd", TStr.sort()), kq("k!wd"), c.old.index
         # call sites (_cache_inputs, cache_outputs, cache_jacobian): a group is written once, into an entry that does not have it yet
-        return AXIOMS + [("initialized", v0.init(idx)), ("group-absent", z3.Not(v0.has(idx, sterm(c.old.group)))), ("values-allocated", allocated(c.old.values, c.old_ctr)),
+        # (the inputs of an entry - which its hash is computed from - are written first; indices start at 1)
+        return AXIOMS + [("initialized", v0.init(idx)), ("group-absent", z3.Not(v0.has(idx, sterm(c.old.group)))),
+                         ("inputs-first", z3.Or(sterm(c.old.group) == G_IN, v0.has(idx, G_IN))), ("index-positive", idx >= 1),
+                         ("inputs-are-the-filed-content", z3.Implies(sterm(c.old.group) == G_IN, cont(c.old.values, v0.heap) == v0.cin[idx])),
+                         ("values-allocated", allocated(c.old.values, c.old_ctr)),
                          ("entry-allocated", z3.ForAll([g, k], z3.Implies(z3.And(v0.has(idx, g), v0.dmem(idx, g)[k]), z3.And(v0.dvals(idx, g)[k] > 0, v0.dvals(idx, g)[k] <= v0.ctr))))]
 
     def ensures(self, c):
